@@ -9,14 +9,45 @@ namespace Tins.Wire.ChainAll
 open Tins Tins.Wire
 open Tins.Wire.L2 (layerView splitRaw stripView padOf ViewEq IsTail TailInner cxOf)
 
-/-- classes of the covered families -/
+/-- classes of the covered families (every family; a Dot11 object must be of a class of the family: its name has the layout
+    the object carries — what every Dot11 parsing constructor establishes) -/
 def Coverable : AnyObj → Prop
-  | .l2 _ => True
-  | .ip _ => True
-  | .ip6 _ => True
-  | .tr _ => True
-  | .icmp _ => True
-  | _ => False
+  | .raw _ => False
+  | .wifi (.dot11 d) => Wifi.layoutOf d.cls = some d.lay
+  | _ => True
+
+/-- outside the Wifi family the only entry name of an object is its class name -/
+theorem entryName_eq {n : String} {y : AnyObj} (h : EntryName n y) (hnw : ∀ o, y ≠ .wifi o) : y.info.1 = n := by
+  rcases h with h | h
+  · exact h.symm
+  · cases y with
+    | wifi o => exact absurd rfl (hnw o)
+    | _ => exact h.elim
+
+/-- the entry names of a (covered) Wifi object are entries of the Wifi family -/
+theorem wifi_entry_names (n : String) (o : Wifi.Obj) (h : EntryName n (.wifi o)) (hc : Coverable (.wifi o)) :
+    n ∈ Wifi.classes := by
+  cases o with
+  | dot11 d =>
+    rcases h with rfl | ⟨rfl, _⟩
+    · exact (dot11_classes_facts d.cls (layoutOf_mem d.cls d.lay hc)).1
+    · decide
+  | eapol e =>
+    rcases h with rfl | ⟨h | h, _⟩
+    · show (if e.rsn then "RSNEAPOL" else "RC4EAPOL") ∈ Wifi.classes
+      cases e.rsn <;> decide
+    · subst h; decide
+    · subst h; decide
+  | radiotap t =>
+    rcases h with rfl | h
+    · simp only [AnyObj.info, Wifi.info]; decide
+    · exact h.elim
+
+/-- the entry name of an App object is its class name, one of the seven of the family -/
+theorem app_entry_names (n : String) (o : App.Obj) (h : EntryName n (.app o)) : n ∈ App.classes := by
+  have := entryName_eq h (fun _ e => by cases e)
+  rw [← this]
+  cases o <;> (simp only [AnyObj.info, App.info]; decide)
 
 /-- the version field of a parsed IP / IPv6 header is the first nibble of the buffer it was parsed from -/
 def NibOf (y : AnyObj) (pb : Bytes) : Prop :=
@@ -30,7 +61,7 @@ def LinkInnerA (x : AnyObj) : Inner → Prop
   | .none => LinkAll x []
   | .raw pb => LinkAll x [.raw pb]
   | .cls name pb fb => fb = false ∧ name ≠ "RawPDU" ∧
-      ∀ y r, y.info.1 = name → Coverable y → NibOf y pb → LinkAll x (y :: r)
+      ∀ y r, EntryName name y → Coverable y → NibOf y pb → LinkAll x (y :: r)
 
 /-! ### the link-layer family -/
 
@@ -183,7 +214,152 @@ theorem l2ToNet_of_B (x : L2.Obj) (ver v : Nat) (pb : Bytes) (h : l2ToNetB x ver
   cases x <;> first | trivial | exact h.elim | skip
   exact ⟨h.1, by rw [hv]; exact h.2⟩
 
-/-- **every parsing constructor of the link-layer family establishes the link**, also to IP / IPv6 -/
+/-- an LLC constructor that hands the rest to another constructor saw both SAPs 0x42 (and never stores information fields) -/
+theorem llc_parse_stp (b : Bytes) (l : L2.Llc) (name : String) (pb : Bytes) (fb : Bool)
+    (h : L2.Llc.parse b = .ok (l, .cls name pb fb)) : l.dsap = 0x42 ∧ l.ssap = 0x42 ∧ l.infos = [] := by
+  have hinf := L2.llc_parse_infos_nil b l _ h
+  have hk : ∀ d s rest, L2.Llc.innerFor d s rest = .cls name pb fb → d = 0x42 ∧ s = 0x42 := by
+    intro d s rest hh
+    unfold L2.Llc.innerFor at hh
+    split at hh
+    · split at hh
+      · rename_i hc
+        simpa using hc
+      · cases hh
+    · cases hh
+  rw [L2.llc_parse_eq] at h
+  split at h
+  · cases h
+  · split at h
+    · injection h with h; injection h with he hi
+      subst he
+      exact ⟨(hk _ _ _ hi).1, (hk _ _ _ hi).2, hinf⟩
+    · split at h
+      · cases h
+      · injection h with h; injection h with he hi
+        subst he
+        exact ⟨(hk _ _ _ hi).1, (hk _ _ _ hi).2, hinf⟩
+
+/-- which link-layer constructors hand the rest of the buffer to ARP / `EAPOL::from_bytes` / STP -/
+theorem l2_parse_cls_facts2 (cls : String) (b : Bytes) (x : L2.Obj) (name : String) (pb : Bytes) (fb : Bool)
+    (hc : cls ∈ L2.classes) (h : L2.parse cls b = .ok (x, .cls name pb fb)) (hs : L2.Serializable x) :
+    (name = "ARP" → l2Ether x) ∧ (name = "EAPOL" → l2Ether x) ∧ (name = "STP" → l2ToStp x) := by
+  have hnoStp : ∀ t, Tags.classOfEther t = some name → name ≠ "STP" := by
+    intro t ht e
+    have := ether_names ht
+    rw [e] at ht
+    have hm := L2.classOfEther_mem t "STP" ht
+    revert hm; decide
+  simp only [L2.classes, List.mem_cons, List.mem_nil_iff, or_false] at hc
+  rcases hc with hc | hc | hc | hc | hc | hc | hc | hc | hc | hc | hc <;> subst hc <;> simp only [L2.parse] at h <;>
+    rcases Ip.map_ok h with ⟨⟨y, j⟩, hy, hr⟩ <;> injection hr with hx hi <;> subst hx <;> subst hi
+  · -- EthernetII
+    rw [L2.eth_parse_eq] at hy
+    split at hy
+    · cases hy
+    · injection hy with hy; injection hy with _ hi
+      have := etherInner_cls (ite_cls hi)
+      exact ⟨fun _ => trivial, fun _ => trivial, fun e => absurd e (hnoStp _ this.1)⟩
+  · -- Dot3
+    rw [L2.dot3_parse_eq] at hy
+    split at hy
+    · cases hy
+    · injection hy with hy; injection hy with _ hi
+      have := ite_cls hi
+      injection this with h1 _ _
+      subst h1
+      exact ⟨fun h => absurd h (by decide), fun h => absurd h (by decide), fun h => absurd h (by decide)⟩
+  · -- LLC
+    have := llc_parse_stp b y name pb fb hy
+    have hn : name = "STP" := by
+        -- the only name LLC dispatches to
+        have hk : ∀ d s rest, L2.Llc.innerFor d s rest = .cls name pb fb → name = "STP" := by
+          intro d s rest hh
+          unfold L2.Llc.innerFor at hh
+          split at hh
+          · split at hh
+            · injection hh with h1 _ _; exact h1.symm
+            · cases hh
+          · cases hh
+        rw [L2.llc_parse_eq] at hy
+        split at hy
+        · cases hy
+        · split at hy
+          · injection hy with hy; injection hy with _ hi; exact hk _ _ _ hi
+          · split at hy
+            · cases hy
+            · injection hy with hy; injection hy with _ hi; exact hk _ _ _ hi
+    subst hn
+    exact ⟨fun h => absurd h (by decide), fun h => absurd h (by decide), fun _ => this⟩
+  · -- SNAP
+    rw [L2.snap_parse_eq] at hy
+    split at hy
+    · cases hy
+    · injection hy with hy; injection hy with _ hi
+      have := etherInner_cls (ite_cls hi)
+      exact ⟨fun _ => trivial, fun _ => trivial, fun e => absurd e (hnoStp _ this.1)⟩
+  · -- Dot1Q
+    rw [L2.dot1q_parse_eq] at hy
+    split at hy
+    · cases hy
+    · injection hy with hy; injection hy with _ hi
+      have := etherInner_cls (ite_cls hi)
+      exact ⟨fun _ => trivial, fun _ => trivial, fun e => absurd e (hnoStp _ this.1)⟩
+  · -- MPLS
+    rw [L2.mpls_parse_eq] at hy
+    split at hy
+    · cases hy
+    · injection hy with hy; injection hy with hm hi
+      subst hm
+      have hi2 := ite_cls hi
+      unfold L2.Mpls.innerFor at hi2
+      split at hi2
+      · split at hi2
+        · injection hi2 with h1 _ _
+          subst h1
+          exact ⟨fun h => absurd h (by decide), fun h => absurd h (by decide), fun h => absurd h (by decide)⟩
+        · split at hi2
+          · injection hi2 with h1 _ _
+            subst h1
+            exact ⟨fun h => absurd h (by decide), fun h => absurd h (by decide), fun h => absurd h (by decide)⟩
+          · cases hi2
+      · injection hi2 with h1 _ _
+        subst h1
+        exact ⟨fun h => absurd h (by decide), fun h => absurd h (by decide), fun h => absurd h (by decide)⟩
+  · -- PPPoE
+    exact absurd hy (L2.pppoe_parse_no_cls b y name pb fb)
+  · -- SLL
+    rw [L2.sll_parse_eq] at hy
+    split at hy
+    · cases hy
+    · injection hy with hy; injection hy with _ hi
+      have := etherInner_cls (ite_cls hi)
+      exact ⟨fun _ => trivial, fun _ => trivial, fun e => absurd e (hnoStp _ this.1)⟩
+  · -- Loopback
+    rw [L2.loopback_parse_eq] at hy
+    split at hy
+    · cases hy
+    · injection hy with hy; injection hy with _ hi
+      unfold L2.Loopback.innerFor at hi
+      split at hi
+      · injection hi with h1 _ _; subst h1
+        exact ⟨fun h => absurd h (by decide), fun h => absurd h (by decide), fun h => absurd h (by decide)⟩
+      · split at hi
+        · injection hi with h1 _ _; subst h1
+          exact ⟨fun h => absurd h (by decide), fun h => absurd h (by decide), fun h => absurd h (by decide)⟩
+        · split at hi
+          · injection hi with h1 _ _; subst h1
+            exact ⟨fun h => absurd h (by decide), fun h => absurd h (by decide), fun h => absurd h (by decide)⟩
+          · cases hi
+  · exact hs.elim
+  · exact hs.elim
+
+/-- no entry of the Wifi family other than `EAPOL`, and no class of the App family other than ARP and STP, is a name a
+    link-layer constructor dispatches to -/
+theorem l2Names_wifi : ∀ c ∈ Wifi.classes, c ∈ l2Names → c = "EAPOL" := by decide
+theorem l2Names_app : ∀ c ∈ App.classes, c ∈ l2Names → c = "ARP" ∨ c = "STP" := by decide
+
+/-- **every parsing constructor of the link-layer family establishes the link**, also to IP / IPv6, ARP, STP and the EAPOL classes -/
 theorem l2_parse_linkA (cls : String) (b : Bytes) (x : L2.Obj) (i : Inner) (hc : cls ∈ L2.classes)
     (h : L2.parse cls b = .ok (x, i)) (hs : L2.Serializable x) : LinkInnerA (.l2 x) i := by
   have hl := (L2.l2_parse_link cls b x i hc h hs).1
@@ -193,15 +369,44 @@ theorem l2_parse_linkA (cls : String) (b : Bytes) (x : L2.Obj) (i : Inner) (hc :
   | cls name pb fb =>
     obtain ⟨hfb, hnr, hlk⟩ := hl
     have hf := l2_parse_cls_facts cls b x name pb fb hc h hs
+    have hf2 := l2_parse_cls_facts2 cls b x name pb fb hc h hs
     refine ⟨hfb, hnr, ?_⟩
     intro y r hy hcov hnib
     have hmem := hf.1
     cases y with
     | raw p => exact hcov.elim
-    | app o => exact hcov.elim
-    | wifi o => exact hcov.elim
-    | l2 z => exact hlk z r hy
+    | app o =>
+      have hn := entryName_eq hy (fun _ e => by cases e)
+      rcases l2Names_app name (app_entry_names name o hy) hmem with rfl | rfl
+      · cases o <;> first | exact hf2.1 rfl | (simp only [AnyObj.info, App.info] at hn; exact absurd hn (by decide))
+      · cases o <;> first | exact hf2.2.2 rfl | (simp only [AnyObj.info, App.info] at hn; exact absurd hn (by decide))
+    | wifi o =>
+      have hne := l2Names_wifi name (wifi_entry_names name o hy hcov) hmem
+      subst hne
+      cases o with
+      | eapol e =>
+        rcases hy with hy | hy
+        · exfalso
+          have : (AnyObj.wifi (.eapol e)).info.1 = if e.rsn then "RSNEAPOL" else "RC4EAPOL" := rfl
+          rw [this] at hy
+          cases hr : e.rsn <;> simp [hr] at hy
+        · exact ⟨hf2.2.1 rfl, hy.2⟩
+      | dot11 d =>
+        exfalso
+        rcases hy with hy | hy
+        · have hm := layoutOf_mem d.cls d.lay hcov
+          have : d.cls = "EAPOL" := hy.symm
+          rw [this] at hm
+          revert hm; decide
+        · exact absurd hy.1 (by decide)
+      | radiotap t =>
+        exfalso
+        rcases hy with hy | hy
+        · simp only [AnyObj.info, Wifi.info] at hy; exact absurd hy (by decide)
+        · exact hy.elim
+    | l2 z => exact hlk z r (entryName_eq hy (fun _ e => by cases e))
     | ip o =>
+      have hy := entryName_eq hy (fun _ e => by cases e)
       cases o with
       | ip i4 =>
         have hn : name = "IP" := hy.symm
@@ -209,15 +414,18 @@ theorem l2_parse_linkA (cls : String) (b : Bytes) (x : L2.Obj) (i : Inner) (hc :
       | ah a => have hn : name = "IPSecAH" := hy.symm; subst hn; exact absurd hmem (by decide)
       | esp e => have hn : name = "IPSecESP" := hy.symm; subst hn; exact absurd hmem (by decide)
     | ip6 o =>
+      have hy := entryName_eq hy (fun _ e => by cases e)
       cases o with
       | ip6 p =>
         have hn : name = "IPv6" := hy.symm
         exact l2ToNet_of_B x 6 p.version pb (hf.2.2 hn) hnib
     | tr o =>
+      have hy := entryName_eq hy (fun _ e => by cases e)
       cases o with
       | udp u => have hn : name = "UDP" := hy.symm; subst hn; exact absurd hmem (by decide)
       | tcp t => have hn : name = "TCP" := hy.symm; subst hn; exact absurd hmem (by decide)
     | icmp o =>
+      have hy := entryName_eq hy (fun _ e => by cases e)
       cases o with
       | icmp p => have hn : name = "ICMP" := hy.symm; subst hn; exact absurd hmem (by decide)
       | icmp6 p => have hn : name = "ICMPv6" := hy.symm; subst hn; exact absurd hmem (by decide)
